@@ -616,7 +616,20 @@ fn c12_run(cfg: &Config) -> PropRun {
     };
     // sequences of two programs: the second starts from the configuration the first leaves
     let dd = if cfg.tier == Tier::Quick { 1 } else { 2 };
-    let seq = programs(dd, false);
+    let mut seq = programs(dd, false);
+    // the snippets of the repository's inline tests that are, on this tree, error-free and closed
+    // on their own (ending in a consumed ';' or a comment): sequences of such programs are
+    // statement-complete programs too
+    for t in crate::spaces::load_test_strings(&cfg.corpus_dir) {
+        if let Outcome::Ok(r) = run_lexer(&t) {
+            // (a byte-order mark is one only at the very start of a source: C17)
+            if r.errors.is_empty() && !r.verif.budget_exceeded && !t.starts_with('\u{feff}') && crate::props::closed_prefix(&t, &r) {
+                seq.push(t);
+            }
+        }
+    }
+    seq.sort();
+    seq.dedup();
     let n = seq.len() as u64;
     // joined by every kind of blank the lexer knows, not only ' ' (and by nothing at all)
     const SEPS: &[&str] = &[" ", "", "\n", "\r\n", "\t", "\u{c}", "\u{a0}", "\u{2028}", "\u{85}", " /*c*/ "];
@@ -733,7 +746,7 @@ fn c12_run(cfg: &Config) -> PropRun {
     report.distinct_nontrivial = ex.distinct_nontrivial.load(std::sync::atomic::Ordering::Relaxed);
     PropRun {
         report,
-        rule: format!("every derivation chain of the construct grammar G ({} contexts, 9 hole types) of depth <= {} with every gap filler of {{none, blank, blank+comment+newline, two adjacent comments, comment+blank, a run of 66 hidden tokens, NBSP, VT}}, and of depth <= {d} with one of these fillers per chain (rotating over the chain index); every ordered pair of programs of depth <= {dd} joined by each of 10 separators (blank, nothing, LF, CRLF, TAB, FF, NBSP, U+2028, NEL, commented blank); one well-formed instance of every macro statement keyword and every argument-taking built-in function inside every statement context of depth <= 2 with every filler; a context with a hole for every rarely used macro statement and for every argument position of every built-in, the hole filled with every chain of depth <= 1, and every context filled with every leaf of a second, larger leaf set (lone % and & in text, %-escapes at the start of a %str segment, signed exponents, hex integers, symbol NOT, operands ending a line, multi-ampersand name continuations, empty parameter lists, parenthesised commas in masking arguments), inside every statement context of depth <= 1 with every filler; non-trivial = mode stack depth >= 6 reached; states/transitions = end configurations at the token boundaries of every {trace_every}th program", CONTEXTS.len(), d - 1),
+        rule: format!("every derivation chain of the construct grammar G ({} contexts, 9 hole types) of depth <= {} with every gap filler of {{none, blank, blank+comment+newline, two adjacent comments, comment+blank, a run of 66 hidden tokens, NBSP, VT}}, and of depth <= {d} with one of these fillers per chain (rotating over the chain index); every ordered pair of programs of depth <= {dd} (and of the inline-test snippets that are error-free and closed on their own) joined by each of 10 separators (blank, nothing, LF, CRLF, TAB, FF, NBSP, U+2028, NEL, commented blank); one well-formed instance of every macro statement keyword and every argument-taking built-in function inside every statement context of depth <= 2 with every filler; a context with a hole for every rarely used macro statement and for every argument position of every built-in, the hole filled with every chain of depth <= 1, and every context filled with every leaf of a second, larger leaf set (lone % and & in text, %-escapes at the start of a %str segment, signed exponents, hex integers, symbol NOT, operands ending a line, multi-ampersand name continuations, empty parameter lists, parenthesised commas in masking arguments), inside every statement context of depth <= 1 with every filler; non-trivial = mode stack depth >= 6 reached; states/transitions = end configurations at the token boundaries of every {trace_every}th program", CONTEXTS.len(), d - 1),
         oracle: "no error at all; end-of-input configuration = ([Default], nesting 0, pending [false], no checkpoint)".into(),
     }
 }
